@@ -7,6 +7,31 @@ ROOT = os.path.dirname(os.path.dirname(os.path.abspath(__file__)))
 TECH = "symbolic execution of the real geckolib code over z3 (proxy objects, bit-vectors/arrays/FP), exhaustive path exploration within stated bounds, counterexample replay on the unmodified code"
 
 CHECKS = {
+    "C02": dict(
+        text="Every distinct item signature of the 151 shipped cfg/log tables (class, type, width, bit position, labels, "
+             "MaxItems, mask, RW) is decided once through the real _set_value/async_set_value/_get_value of the shipped "
+             "accessor object with a symbolic position, a symbolic 1024-byte block and a symbolic value (all labels, "
+             "booleans, 0..255, 0..65535, hh:mm, string forms); every item is mapped to its signature and its concrete "
+             "position checked. Exhaustive over data, no bound.",
+        note="Reference device model = big-endian store; independent field-width rule; temperature values are decided "
+             "in IEEE-754 by C14's units. Known findings: PurgeDelayTimer (no MaxItems), WaterDetected (pos 2658).",
+        ref="5/C02"),
+    "C03": dict(
+        text="Real replace_status_block_segment (both structure classes), status_block_changed and Observable on a "
+             "symbolic old block, a symbolic patch (offset, 1..4 bytes) and one shipped accessor per shape at a symbolic "
+             "position; the oracle (notify iff decoded value changed, once per distinct observer, old/new arguments, "
+             "observers see the new block) uses an independent reference decoder. All watch/unwatch scripts of <=4 ops.",
+        note="Bounded: patch <= 4 bytes, enums <= 9 labels (quick) / all (thorough), two observers; floats compared via "
+             "the ratio abstraction justified by C14's monotone lemma.",
+        ref="5/C03"),
+    "C14": dict(
+        text="Real GeckoTempStructAccessor and GeckoWaterHeater under IEEE-754 double semantics (z3 FloatingPoint): "
+             "decode formula, enc(dec(r)) == r for all 65536 raw words in both units (sync and async path), decimal "
+             "inputs k/10 (k/100 thorough) within one device step and order preserving, strict monotonicity of the "
+             "decoder, unit symbol/limits/operation ladder on every distinct heater layout of the 895 combinations.",
+        note="z3 qffpbv tactic decides the FP lemmas; heater units compare temperatures through raw words (ratio "
+             "abstraction) justified by the monotone.* lemma units of the same check.",
+        ref="5/C14"),
     "C16": dict(
         text="One inductive step of both real sequence-counter implementations from an arbitrary in-range pre-state "
              "(covers every call history), and the sequence byte of every real request factory of the async and the "
